@@ -11,7 +11,7 @@
    [is_zero x] is [x = 0]. *)
 
 From Coq Require Import ZArith QArith Qround Qabs Reals Bool Lra Lia.
-From Coq Require PrimFloat Uint63.
+From Coq Require PrimFloat Uint63 FloatOps.
 
 Record num := mkNum {
   carrier : Type;
@@ -31,7 +31,11 @@ Record num := mkNum {
   nis_zero : carrier -> bool;
   (* numpy.isclose(a, b, rtol=TOL) with the default atol = 1e-8 *)
   nisclose : carrier -> carrier -> bool;
-  nofZ : Z -> carrier
+  nofZ : Z -> carrier;
+  (* floor as an integer: Python's int(x) for x >= 0 *)
+  nfloorZ : carrier -> Z;
+  (* numpy.rint: round half to even (exact instances: floor(x + 1/2), differing only on exact ties) *)
+  nrint : carrier -> carrier
 }.
 
 (* ------------------------------------------------------------------ *)
@@ -83,6 +87,17 @@ Module FNum.
     | Zpos p => PrimFloat.of_uint63 (Uint63.of_Z (Zpos p))
     | Zneg p => PrimFloat.opp (PrimFloat.of_uint63 (Uint63.of_Z (Zpos p)))
     end.
+  Definition rint (x : t) : t :=
+    if PrimFloat.ltb (PrimFloat.abs x) two52 then
+      if PrimFloat.leb zero x then rint_small x else PrimFloat.opp (rint_small (PrimFloat.opp x))
+    else x.
+  Definition floorZ (x : t) : Z :=
+    let f := floor x in
+    let '(m, e) := PrimFloat.frshiftexp (PrimFloat.abs f) in
+    let mant := Uint63.to_Z (PrimFloat.normfr_mantissa m) in
+    let ex := (Uint63.to_Z e - FloatOps.shift)%Z in
+    let v := if (53 <=? ex)%Z then (mant * 2 ^ (ex - 53))%Z else Z.shiftr mant (53 - ex) in
+    if PrimFloat.ltb f zero then Z.opp v else v.
 End FNum.
 
 (* ------------------------------------------------------------------ *)
@@ -111,6 +126,8 @@ Module QNum.
   Definition is_zero (x : t) : bool := Qeq_bool x 0.
   Definition isclose (a b : t) : bool := Qle_bool (Qabs (a - b)) atol.
   Definition of_Z (z : Z) : t := inject_Z z.
+  Definition floorZ (a : t) : Z := Qfloor a.
+  Definition rint (a : t) : t := inject_Z (Qfloor (a + (1 # 2))).
 End QNum.
 
 (* ------------------------------------------------------------------ *)
@@ -139,18 +156,20 @@ Module RNum.
   Definition is_zero (x : t) : bool := if Req_EM_T x 0 then true else false.
   Definition isclose (a b : t) : bool := if Rle_dec (Rabs (a - b)) atol then true else false.
   Definition of_Z (z : Z) : t := IZR z.
+  Definition floorZ (a : t) : Z := Int_part a.
+  Definition rint (a : t) : t := IZR (Int_part (a + / 2)).
 End RNum.
 
 
 Definition FNumI : num := mkNum FNum.t FNum.zero FNum.one FNum.half FNum.par FNum.paper_amount
   FNum.add FNum.sub FNum.mul FNum.div FNum.opp FNum.abs FNum.floor FNum.ceil FNum.ltb FNum.leb FNum.eqb
-  FNum.is_zero FNum.isclose FNum.of_Z.
+  FNum.is_zero FNum.isclose FNum.of_Z FNum.floorZ FNum.rint.
 Definition QNumI : num := mkNum QNum.t QNum.zero QNum.one QNum.half QNum.par QNum.paper_amount
   QNum.add QNum.sub QNum.mul QNum.div QNum.opp QNum.abs QNum.floor QNum.ceil QNum.ltb QNum.leb QNum.eqb
-  QNum.is_zero QNum.isclose QNum.of_Z.
+  QNum.is_zero QNum.isclose QNum.of_Z QNum.floorZ QNum.rint.
 Definition RNumI : num := mkNum RNum.t RNum.zero RNum.one RNum.half RNum.par RNum.paper_amount
   RNum.add RNum.sub RNum.mul RNum.div RNum.opp RNum.abs RNum.floor RNum.ceil RNum.ltb RNum.leb RNum.eqb
-  RNum.is_zero RNum.isclose RNum.of_Z.
+  RNum.is_zero RNum.isclose RNum.of_Z RNum.floorZ RNum.rint.
 
 (* reflection lemmas for the real instance *)
 Lemma R_ltb_true a b : RNum.ltb a b = true <-> (a < b)%R.
